@@ -66,7 +66,7 @@ def run(ctx):
     if hb:
         budget = (4000 if quick else 80000) * (3 if ctx.broken() else 1)
         cmd = [hb, "falsify", str(ctx.seed), str(budget)] + ([] if quick else ["thorough"])
-        rc, out, dt = vcheck.sh(cmd, timeout=240 if quick else 3000)
+        rc, out, dt = vcheck.sh(cmd, timeout=900 if quick else 6000)
         nfail, tail = 0, False
         for line in out.split("\n"):
             if line.startswith("{"):
